@@ -50,7 +50,7 @@ def bounds(tier):
             "U": ["I", "householder", "dft"], "b": ["e1", "ones", "Uones", "complex"], "x0": ["zero", "(1+i)ones"],
             "P": ["none", "jacobi", "commuting", "hpd"], "A as": ["MatMul", "function"], "max_iter": ["0", "1", "2", "n", "n+2"],
             "tol": [0, 1e-3], "breakdown": ["indefinite", "negative-definite", "singular PSD"],
-            "composite A": ["M.H*M + I/4", "M.N + I/4", "I/4 + M.H*M", "I/4 + M.N"], "derived operators": ["none", "A+mu I, A-A, Add([A,A]) built before the solve", "... after the first update"],
+            "composite A": ["M.H*M + I/4", "M.N + I/4", "I/4 + M.H*M", "I/4 + M.N", "M.H*M/2 + M.H*M/2 + I/4"], "derived operators": ["none", "A+mu I, A-A, Add([A,A]) built before the solve", "... after the first update"],
             "layouts": ["contiguous", "strided x"], "scales": "5 (A, b) scalings 1e-15..1e12"}
 
 
@@ -95,7 +95,7 @@ def gen_cases(tier, seed):
     # A given as a composite Linop built from a complex matrix and its adjoint (M.H * M + lam * I and M.N + lam * I):
     # the operator object is applied many times during one solve, so state it carries between applications matters
     for n in (2, 3, 5):
-        for comp in ("MH*M", "M.N", "I+MH*M", "I+M.N"):     # the regularisation term as last or as FIRST summand
+        for comp in ("MH*M", "M.N", "I+MH*M", "I+M.N", "chain3"):     # the regularisation term as last or as FIRST summand; a three-term `+` chain
             for P in ("none", "jacobi"):
                 cases.append(dict(kind="cg", n=n, spectrum="three", U="dft", b="complex", x0="zero", P=P, asfn=False,
                                   max_iter="n+2", tol=0, composite=comp))
@@ -198,7 +198,10 @@ def run_case(case, seed):
             Mop = sp.linop.MatMul([n, 1], Msq)
             core = Mop.H * Mop if case["composite"].endswith("MH*M") else Mop.N
             reg = 0.25 * sp.linop.Identity([n, 1])
-            Aop = (reg + core) if case["composite"].startswith("I+") else (core + reg)
+            if case["composite"] == "chain3":
+                Aop = 0.5 * core + core * 0.5 + reg        # B1 + B2 + lam I, written as one expression
+            else:
+                Aop = (reg + core) if case["composite"].startswith("I+") else (core + reg)
         if case.get("derive") == "before":
             derived = [Aop + 0.5 * sp.linop.Identity([n, 1]), Aop - Aop, sp.linop.Add([Aop, Aop])]
         if strided:
